@@ -66,7 +66,7 @@ Print Assumptions C06_writer_output_accepted.
    writers, and the reader's window is the model's *)
 From Coq Require Import ZArith List.
 Import ListNotations.
-From GM Require Import SrcFrame SrcStreamwriter SrcFrameTie.
+From GM Require Import SrcFrame SrcStreamwriter SrcFrameSignTie.
 Theorem C06_source_signature_constants :
   (v_frame_signatureReferenceDate_args = [2015; 1; 1; 0; 0; 0; 0] /\
    v_streamwriter_signatureReferenceDate_args = [2015; 1; 1; 0; 0; 0; 0] /\
@@ -74,3 +74,13 @@ Theorem C06_source_signature_constants :
    k_frame_Reader_Read = [254; 253; 0; Z.of_N Reader.window])%Z.
 Proof. exact src_frame_signing. Qed.
 Print Assumptions C06_source_signature_constants.
+
+(* GenerateSignature translated statement by statement from the source on every run (sha256.New, the
+   Write calls in their order — key, marker, length, header, 24-bit id, payload, checksum, link id,
+   48-bit timestamp — and the first six bytes of the sum): it is the model's gen_signature, for every
+   frame, key and payload; SHA-256 itself is the Gallina model compared with crypto/sha256 on every run *)
+Theorem C06_source_signature : forall f key id p,
+  src_frame_V2Frame_GenerateSignature (f_inc f) (f_cmp f) (f_seq f) (f_sys f) (f_comp f) (f_ck f) (f_link f) (f_ts f)
+    key p id = gen_signature key f id p.
+Proof. exact src_v2_signature. Qed.
+Print Assumptions C06_source_signature.
